@@ -280,16 +280,17 @@ def replay(chk, scenarios, label, trace_sample=100, extra_env=None, fault_of=Non
         t = runtrace.run_trace(events, res["exit"], outcome, bool(res.get("report")), "BLOCKWATCH_AI_API_KEY" in case["env"])
         if t:
             run_tr[sid] = t
-        d = runtrace.detect_trace(events)
-        if d:
-            det_tr[sid] = d
     # every recorded run (not a sample) against the system specification: many runs per TLC process
     for sid in sids:
         scn, case, expected, res, events = items[sid][:5]
         if res["outcome"] in ("ok", "error", "reject"):
             sys_tr[sid] = runtrace.system_trace(events, res, case["args"], False)
+        d = runtrace.detect_trace(events)
+        if d:
+            det_tr[sid] = d            # every recorded detector loop, not a sample
     for module, trs in (("TraceRun", run_tr), ("TraceDetect", det_tr), ("TraceSystem", sys_tr)):
-        vres = runtrace.validate_system(trs) if module == "TraceSystem" else runtrace.validate_many(module, trs)
+        vres = runtrace.validate_system(trs) if module == "TraceSystem" else (
+            runtrace.validate_detect(trs) if module == "TraceDetect" else runtrace.validate_many(module, trs))
         for sid, (acc, diag, states, rc_) in vres.items():
             chk.traces += 1
             chk.states += states
